@@ -62,32 +62,9 @@ def run(prop, tier, seed):
     # instruction of a sample of the programs is validated against spec/vm/AbraVM.tla (TraceVM.tla)
     nprog = 40 if tier == "quick" else 500
     pick = [c for c in cases if c.get("inmodel") or "group" in c]
-    step = max(1, len(pick) // (2 * nprog))
-    traced = []
-    for c in pick[::step][:2 * nprog]:
-        d = dict(c)
-        d["id"] = c["id"] + "@vm"
-        d["trace"] = vmlib.FLAGS
-        d["maxsteps"] = 4000
-        traced.append(d)
-    tobs, _ = vlib.run_harness(traced, wd, name="traced", jobs=8, timeout=60)
-    runs = [(c["id"], o.get("events")) for c, o in zip(traced, tobs) if o.get("events")]
-    tviol, vmcov = vmlib.validate(runs, wd)
-    byid = {c["id"]: (c, o) for c, o in zip(traced, tobs)}
-    for x in tviol:
-        c, o = byid.get(x["run"], ({"id": x["run"]}, {}))
-        if x["kind"].startswith("rewrite"):
-            key = "C05|vm|%s|%s" % (x["kind"], x["info"][:160])
-        else:
-            key = "C05|vm|%s|%s" % (x["kind"], x["info"].split(",")[0].strip('<"> '))
-        rep.finding(key, c, o, [x], "TraceVM rejects the event: %s %s (run %s, event %d)" % (x["kind"], x["info"][:300], x["run"], x["line"]))
+    vmcov = vmlib.trace_leg(rep, prop, pick, wd, 2 * nprog, jobs=8, maxsteps=4000)
     rep.coverage = {
-        "vm_traced_runs": len(runs), "vm_instruction_steps_validated": vmcov.get("steps_checked", 0),
-        "vm_calls_returns_validated": vmcov.get("calls_returns", 0),
-        "vm_steps_outside_model": vmcov.get("steps_unmodelled", 0), "vm_steps_value_undecided": vmcov.get("steps_undecided", 0),
-        "peephole_rewrites_validated": vmcov.get("rewrites", 0), "peephole_rewrites_undecided": vmcov.get("rewrites_undecided", 0),
-        "peephole_rewrites_outside_model": vmcov.get("rewrites_unmodelled", 0),
-        "assembled_instructions_validated": vmcov.get("assembled", 0),
+        **vmcov,
         "programs": len(grid) + len(gen), "disagreements_checked": len(cases),
         "evaluations": len(cases), "distinct_nontrivial": len(grid) + len(gen),
         "rule": "(type, operator, left, right, operand form) grid of spec/props/C05.tla (%s) + AbraGen programs, each with the optimizer "
